@@ -184,6 +184,41 @@ func (p *c16) reserved(x *res, words []string, ctx *runner.Ctx) {
 						}
 					}
 				}
+				// the word as the name of the table's OWN key attribute (tables keyed by "name", "key", "hash", "status" are
+				// common): a write guarded by attribute_exists(<word>) / attribute_not_exists(<word>) with the name written
+				// out is as invalid there as anywhere - whether or not the guard could be answered from the key alone
+				if pi == 0 && vi < 2 {
+					for _, adapter := range adapt.Adapters {
+						spec := adapt.TableSpec{Name: "tbl16k", Hash: wv, HashT: "S", Billing: "PAY_PER_REQUEST"}
+						if vi == 1 {
+							spec.Range, spec.RangeT = "r", "N"
+						}
+						cl, _, ds := freshClient(adapter, spec)
+						if ds != nil {
+							break
+						}
+						key := val.Item{wv: val.Str("k1")}
+						if spec.Range != "" {
+							key["r"] = val.Num("1")
+						}
+						stored := key.Clone()
+						stored["v"] = val.Str("x")
+						cl.Do(adapt.Op{Kind: adapt.OpPut, Table: spec.Name, Item: stored})
+						for _, guard := range []string{"attribute_exists(" + wv + ")", "attribute_not_exists(" + wv + ")", " attribute_exists ( " + wv + " ) "} {
+							for _, op := range []adapt.Op{{Kind: adapt.OpPut, Table: spec.Name, Item: stored, Cond: guard}, {Kind: adapt.OpDelete, Table: spec.Name, Key: key, Cond: guard},
+								{Kind: adapt.OpUpdate, Table: spec.Name, Key: key, Update: "SET v = :v", Values: val.Item{":v": val.Str("y")}, Cond: guard}} {
+								o := cl.Do(op)
+								x.r.Evals++
+								x.r.Counters["reserved_words_naming_the_table_key"]++
+								if o.Class == adapt.ClsRuntime {
+									x.viol("runtime-panic", o.Site, fmt.Sprintf("[%s] %s guarded by %q on a table keyed by %q panics: %s", adapter, op.Kind, guard, wv, o.Msg), wit)
+								} else if o.Class == adapt.ClsCondFailed || o.Class == adapt.ClsOK {
+									x.viol("reserved-word-accepted", "key-attribute-guard/"+string(op.Kind), fmt.Sprintf("[%s] %s guarded by %q on a table whose key attribute is named %q is answered %s: the reserved word went unnoticed", adapter, op.Kind, guard, wv, o.Class), wit)
+								}
+							}
+						}
+					}
+				}
 				// converse through an alias: must be accepted
 				if vi == 0 {
 					aexpr := pos.mk("#w")
